@@ -266,6 +266,12 @@ class _TCPPooling:
             # Empty messages are ignored (RFC 8323 Section 3.4)
             return
 
+        if self._tokenmanager is None:
+            # The connection has been released during shutdown, but the peer
+            # may still send what it had in flight until it closes it.
+            self.log.debug("Ignoring late message during shutdown: %r", msg)
+            return
+
         if msg.code.is_response():
             self._tokenmanager.process_response(msg)
             # ignoring the return value; unexpected responses can be the
